@@ -108,6 +108,7 @@ type Contract struct {
 	Reason   string // for trusted: why
 	ParamNames []string // for functype/iface contracts: names of the parameters
 	Measure  []Clause // function-level termination measure (lexicographic), for recursion
+	Stack    []Clause // `stackbound e, k`: lexicographic tuple over bounded naturals that decreases along every call between functions that carry one (bounds the depth of the call stack); the last component must be an integer literal
 	Like     string // functype contract whose clauses are included (self = this function)
 }
 
@@ -842,6 +843,24 @@ func (sp *Specs) loadSpecFile(path, pkgPath string) error {
 				}
 				cur.Measure = append(cur.Measure, c)
 			}
+		case "stackbound":
+			if cur == nil {
+				return fail(fmt.Errorf("stackbound outside func"))
+			}
+			ps := splitTop(rest, ',')
+			if len(ps) != 2 {
+				return fail(fmt.Errorf("stackbound <expr>, <rank literal>"))
+			}
+			if _, err := strconv.Atoi(strings.TrimSpace(ps[1])); err != nil {
+				return fail(fmt.Errorf("stackbound: the rank must be an integer literal (it has to be bounded by a constant)"))
+			}
+			for _, p := range ps {
+				c, err := parseClause(p, lineNo)
+				if err != nil {
+					return fail(err)
+				}
+				cur.Stack = append(cur.Stack, c)
+			}
 		case "inittable":
 			c, err := parseClause(rest, lineNo)
 			if err != nil {
@@ -900,4 +919,18 @@ func (sp *Specs) resolveLikes() error {
 		c.FieldsOf = append(c.FieldsOf, ft.FieldsOf...)
 	}
 	return nil
+}
+
+func (c *Contract) measureOf() []Clause {
+	if c == nil {
+		return nil
+	}
+	return c.Measure
+}
+
+func (c *Contract) stackOf() []Clause {
+	if c == nil {
+		return nil
+	}
+	return c.Stack
 }
